@@ -35,6 +35,10 @@ def gen_case(seed):
 
     rnd = random.Random(seed)
     mode = rnd.choice(["complete", "complete", "complete", "fail", "cancel", "timeout"])
+    if mode == "complete" and rnd.random() < 0.25:
+        spec = gen.gen_dupfan(rnd)
+        spec["sched_seed"] = seed
+        return {"seed": seed, "family": "det", "mode": mode, "spec": spec, "cancel_at": None}
     spec = gen.gen_det(rnd, handler=(False if mode == "fail" else None))
     spec["sched_seed"] = seed
     cancel_at = None
@@ -77,6 +81,8 @@ def run_crash(spec, db, crash_at, cancel_at=None):
     out["bodies_before"] = len(case.tr.rec.of("enter"))
     # did the last tick this process reduced end the run?  (decided on this run's own timeline: tie order among
     # simultaneous tasks may differ from the reference run, so "k == number of reference ticks" is not a sound test)
+    # events a step body handed to ctx.send_event in this process, and the bodies that completed (their step_result may be persisted)
+    out["p1_sends"] = [(r["uid"], r["step"], r["bid"]) for r in case.tr.rec.of("emit") if r["how"] == "send"]
     out["p1_ended"] = bool(case.tr.ticks) and (case.tr.ticks[-1].get("running") is False or bool(case.tr.ticks[-1].get("exit")))
     if crash_at is not None:
         out["db_at_crash"], out["ticks_at_crash"] = sr.read_db(db)
@@ -138,6 +144,17 @@ def unpersisted_outputs(ticks):
                 if not follow:
                     missing.append(("failure_followup", uid_in))
     return missing
+
+
+def unpersisted_sends(ticks, p1_sends):
+    """events sent with ctx.send_event by a step whose step_result tick IS persisted, whose own add_event tick is not:
+    they only lived in the in-memory mailbox (same mechanism as an unpersisted returned event)"""
+    from collections import Counter
+
+    done_steps = {t.get("step_name") for t in ticks if t.get("type") == "step_result"}
+    sent = Counter(uid for (uid, step, _bid) in p1_sends if step in done_steps)
+    have = Counter(_tick_uid(t.get("event")) for t in ticks if t.get("type") == "add_event")
+    return [("sent_event", u) for u, n in sent.items() if have.get(u, 0) < n]
 
 
 def has_terminal(ticks):
@@ -218,7 +235,7 @@ def check_point_nonresult(case, k, n, ref, out, acc):
             acc.violation({"mech": "finished_run_re_executed_after_restart", "mode": case["mode"]},
                           f"run already ended as {r['status']} in the persisted log, yet {out['bodies_after']} step bodies ran after the restart", wit)
         return
-    missing = unpersisted_outputs(ticks)
+    missing = unpersisted_outputs(ticks) + unpersisted_sends(ticks, out.get("p1_sends", []))
     if hres["status"] == "running":
         acc.violation({"mech": "resumed_handler_never_finishes", "unpersisted_step_consequence_at_crash": bool(missing), "crash_after": ticks[-1]["type"]},
                       f"crash after persisted tick {k} of a failing run: handler still running 300 virtual s after the restart; unpersisted consequences {missing}", wit)
@@ -248,7 +265,7 @@ def check_point(case, k, ref, out, acc):
     terminal = has_terminal(ticks)
     if not terminal:
         acc.sig(h({"s": case["seed"], "k": k}))
-    missing = unpersisted_outputs(ticks)
+    missing = unpersisted_outputs(ticks) + unpersisted_sends(ticks, out.get("p1_sends", []))
     if hres is None:
         acc.violation({"mech": "handler_record_missing_after_restart"}, f"crash after tick {k}: handler row not found", wit)
         return
